@@ -14,6 +14,7 @@ EXTENDS FmtOps, Json, IOUtils, TLC
 Tr == ndJsonDeserialize(IOEnv.TRACE)
 
 VARIABLES l, nbad
+MaxReported == 1500
 
 Entries == {"fb", "direct", "vfmt", "n"}
 IsArg(a) == /\ DOMAIN a = {"cat", "ty", "neg", "w", "n", "s"}
@@ -67,7 +68,9 @@ Next ==
     /\ LET v == Judge(Tr[l]) IN
        IF v = << >> THEN nbad' = nbad
        ELSE /\ nbad' = nbad + 1
-            /\ \A k \in 1..Len(v) : PrintT(<<"DEV", l, v[k], Expected(Tr[l])>>)
+            \* a badly broken implementation deviates on every event: report the first MaxReported deviating events of a
+            \* trace file in full (the verdict does not need more; every event is still judged and counted)
+            /\ (nbad < MaxReported => \A k \in 1..Len(v) : PrintT(<<"DEV", l, v[k], Expected(Tr[l])>>))
 
 Spec == Init /\ [][Next]_<<l, nbad>>
 Consumed == TLCGet("stats").diameter - 1 = Len(Tr)
